@@ -2,13 +2,14 @@ CLAIM = False
 
 HOOKS = ['-DURCU_VERIF_RCU_QS_ACTIVE_ATTEMPTS=2', '-DURCU_VERIF_URCU_WAIT_ATTEMPTS=1']
 STUBS = {'urcu_mb_synchronize_rcu': 'my_sync', 'set_thread_cpu_affinity': 'my_affinity'}
+TSTUBS = dict(STUBS, urcu_mb_get_default_call_rcu_data='my_get_default')
 
 
 def cr(name, scen, threads, R, helper_slot, user_slots, tso=0, desc='', wit=None, unwind=3, timeout=1500):
     ths = [dict(fn=f, slot=i + 1) for i, f in enumerate(threads)]
     ths.append(dict(fn='call_rcu_thread', slot=helper_slot, dyn='pthread_create', active=False))
-    return dict(name=name, src='c03_callrcu.c', cflags=['-DSCEN=%d' % scen] + HOOKS, nslots=helper_slot + 1, pre=[], post=['epilogue'],
-                plain=[('epilogue', 0)], threads=ths, rounds=R, unwind=unwind, tso=tso, timeout=timeout, mem_gb=16, stub_map=STUBS,
+    return dict(name=name, src='c03_callrcu.c', cflags=['-DSCEN=%d' % scen] + HOOKS, nslots=helper_slot + 1, pre=[('mkhelper', 1)], post=['epilogue'],
+                plain=[('mkhelper', 1), ('epilogue', 0)], threads=ths, rounds=R, unwind=unwind, tso=tso, timeout=timeout, mem_gb=16, stub_map=TSTUBS,
                 indirect_only={'call_rcu_thread': ['cb', '_rcu_barrier_complete']}, unwind_fn={'^F0_': 6},
                 solo=dict(slots=user_slots + [helper_slot] + user_slots + [helper_slot, helper_slot], turns=1),
                 require_done='assert_idle', done_slots=user_slots, idle_slots=[helper_slot], rt_defines={'RT_NGHOST': 64},
@@ -21,7 +22,7 @@ def obligations(tier):
     R = 3
     obs = []
     obs.append(cr('default_helper_2enq', 1, ['e1', 'e2', 'reader2'], R, 4, [1, 2, 3],
-                  desc='2 enqueuers (3 callbacks) + reader + the default helper (created on first call_rcu): each callback exactly once, after the reader section '
+                  desc='2 enqueuers (3 callbacks) + reader + the default helper (created by the library in a sequential prologue): each callback exactly once, after the reader section '
                        'open at its call_rcu has ended; helper ends parked in futex wait; no callback left behind'))
     return obs
 
